@@ -690,7 +690,7 @@ def fos_product(p):
 
 
 fos_product.function = "state_metrics.fidelity_of_separability"
-fos_product.limit = 60
+fos_product.limit = 115
 
 
 def fos_reject(p):
@@ -792,6 +792,11 @@ def cases(tier, seed):
     out = []
 
     def add(clause, params, ic, nontrivial=True, **kw):
+        # input class "<function>/<real|complex>/<kind of pair>": the field comes second so that a known finding that only concerns
+        # real (or complex) inputs can be keyed by the prefix "<function>/real/*"
+        parts = ic.split("/")
+        if parts[-1] in ("real", "complex") and len(parts) >= 3:
+            ic = "/".join([parts[0], parts[-1]] + parts[1:-1])
         out.append(dict(clause=clause, params=params, input_class=ic, nontrivial=nontrivial, **kw))
 
     fields = ("real", "complex")
